@@ -498,6 +498,16 @@ func badFiles(kind string, working []certSpec) fileSet {
 		fs := goodFiles(working)
 		fs["b1.pem"] = fs["b1.pem"][:len(fs["b1.pem"])/3]
 		return fs
+	case "one-of-two-empty-file": // a renewal caught in the middle of a non-atomic write
+		fs := goodFiles(working)
+		fs["b1.pem"] = []byte{}
+		return fs
+	case "all-files-empty":
+		fs := goodFiles(working)
+		for k := range fs {
+			fs[k] = []byte{}
+		}
+		return fs
 	case "one-of-two-key-mismatch":
 		fs := goodFiles(working)
 		fs["a0-key.pem"] = otherKey
@@ -553,7 +563,7 @@ func TestC11SourceHistories(t *testing.T) {
 		go func() {
 			defer wg.Done()
 			kind := []string{"path", "http"}[h%2]
-			bad := []string{"broken-pem", "one-of-two-truncated", "truncated", "key-mismatch", "one-of-two-key-mismatch", "missing-key", "garbage", "good-plus-garbage-file"}[(h/2+int(hx.Seed()))%8]
+			bad := []string{"broken-pem", "one-of-two-truncated", "truncated", "key-mismatch", "one-of-two-key-mismatch", "missing-key", "garbage", "good-plus-garbage-file", "one-of-two-empty-file", "all-files-empty"}[(h/2+int(hx.Seed()))%10]
 			gen1, gen2 := 100+2*h, 101+2*h
 			set1 := []certSpec{{cn: "one.example.com", sans: []string{"*.one.example.com"}, id: fmt.Sprintf("%d/0", gen1)}, {cn: "two.example.com", id: fmt.Sprintf("%d/1", gen1)}}
 			set2 := []certSpec{{cn: "three.example.com", id: fmt.Sprintf("%d/0", gen2)}, {cn: "one.example.com", id: fmt.Sprintf("%d/1", gen2)}}
